@@ -32,8 +32,12 @@ def materialise(ents, path, c, rnd, contents):
         p = os.path.join(path, e["name"])
         if e["kind"] == "f":
             n_ = size_of(e["sz"], c)
-            kind = rnd.randrange(4)
-            if kind == 0:
+            kind = rnd.randrange(6)
+            if kind == 4:
+                data = b"\n" * n_                                     # nothing but line ends
+            elif kind == 5:
+                data = bytes((10 if (j + 1) % c == 0 or j == n_ - 1 else rnd.randint(32, 126)) for j in range(n_))   # every chunk ends a line
+            elif kind == 0:
                 data = bytes(n_)                                      # all zero bytes
             elif kind == 1:
                 data = bytes(rnd.randint(1, 255) for _ in range(n_ // 2)) + bytes(n_ - n_ // 2)    # zero tail
@@ -208,7 +212,8 @@ def main():
                     case = os.path.join(work, "single")
                     os.makedirs(case, exist_ok=True)
                     src, dst = os.path.join(case, "s.bin"), os.path.join(case, "d.bin")
-                    data = os.urandom(size) if rnd.random() < 0.5 else (os.urandom(size // 2) + bytes(size - size // 2))
+                    data = rnd.choice([os.urandom(size), os.urandom(size // 2) + bytes(size - size // 2), b"\n" * size,
+                                       (b"line of text\n" * (size // 13 + 1))[:max(0, size - 1)] + (b"\n" if size else b"")])
                     open(src, "wb").write(data)
                     rec = RecOpen()
                     classic.open = rec
